@@ -60,6 +60,32 @@ type cCluster struct {
 	mu      sync.Mutex
 	applied map[string][]applyEv
 	nApply  atomic.Int64
+
+	// stalling of raft snapshot persistence on one node (delay injection between Snapshot and Persist)
+	stallMu      sync.Mutex
+	stallNode    string
+	stallRelease chan struct{}
+	stallEntered chan struct{}
+}
+
+// stallPersist makes every Persist of node id wait until the returned release function is called;
+// entered receives one token per Persist that is waiting.
+func (c *cCluster) stallPersist(id string) (entered <-chan struct{}, release func()) {
+	c.stallMu.Lock()
+	defer c.stallMu.Unlock()
+	c.stallNode = id
+	c.stallRelease = make(chan struct{})
+	c.stallEntered = make(chan struct{}, 64)
+	rel := c.stallRelease
+	var once sync.Once
+	return c.stallEntered, func() {
+		once.Do(func() {
+			c.stallMu.Lock()
+			c.stallNode = ""
+			c.stallMu.Unlock()
+			close(rel)
+		})
+	}
 }
 
 var clusterSeq atomic.Int64
@@ -73,6 +99,23 @@ func newCluster(ctx *Ctx, withDirs bool, snapT uint64, snapI time.Duration) *cCl
 		c.root = mkScratch("c07")
 	}
 	setHook(func(name string, args ...interface{}) {
+		if name == "raft.snap.persist" && len(args) == 1 {
+			id, _ := args[0].(string)
+			c.stallMu.Lock()
+			rel, ent, hit := c.stallRelease, c.stallEntered, c.stallNode == id && id != ""
+			c.stallMu.Unlock()
+			if hit {
+				select {
+				case ent <- struct{}{}:
+				default:
+				}
+				select {
+				case <-rel:
+				case <-time.After(90 * time.Second): // never wedge a node for good
+				}
+			}
+			return
+		}
 		if name != "fsm.apply" || len(args) < 3 {
 			return
 		}
@@ -806,6 +849,81 @@ func c07Aggregate(ctx *Ctx) {
 		Case: map[string]interface{}{"example": ex}, Key: "c07|forward|lost"})
 }
 
+// stalledSnapshot: see the call site. false = history cannot go on.
+func (h *c07Run) stalledSnapshot(f *cNode, snapT uint64) bool {
+	entered, release := h.c.stallPersist(f.id)
+	defer release()
+	db := 0
+	step := func(argv ...string) bool {
+		st := Step{Argv: argv, DB: &db}
+		h.log("%s", st.String())
+		if res := h.sess.Exec(st); res.Vio != nil {
+			h.report(res.Vio)
+			return false
+		}
+		return true
+	}
+	// writes until a snapshot of f is waiting in Persist
+	waiting := false
+	for k := 0; k < int(4*snapT)+20 && !waiting; k++ {
+		if !step("RPUSH", "stall:list", fmt.Sprintf("a%d", k)) {
+			return false
+		}
+		select {
+		case <-entered:
+			waiting = true
+		case <-time.After(15 * time.Millisecond):
+		}
+	}
+	if !waiting {
+		select {
+		case <-entered:
+			waiting = true
+		case <-time.After(2 * time.Second):
+		}
+	}
+	if !waiting {
+		h.ctx.Count("stalled_snapshot_not_triggered", 1)
+		return true
+	}
+	before := h.c.stats(f)["last_snapshot_index"]
+	// fewer writes than the snapshot threshold, so that no further snapshot replaces the stalled one
+	k := int(snapT) - 3
+	if k > 6 {
+		k = 6
+	}
+	for j := 0; j < k; j++ {
+		ok := false
+		switch j % 3 {
+		case 0:
+			ok = step("INCR", "stall:cnt")
+		case 1:
+			ok = step("RPUSH", "stall:list", fmt.Sprintf("b%d", j))
+		case 2:
+			ok = step("APPEND", "stall:str", "x")
+		}
+		if !ok {
+			return false
+		}
+	}
+	// f must have applied them while its snapshot is held
+	ll := h.c.leader()
+	applied := waitFor(30*time.Second, func() bool {
+		return ll != nil && h.c.stats(f)["applied_index"] == h.c.stats(ll)["last_log_index"]
+	})
+	release()
+	if !applied {
+		h.ctx.Count("stalled_snapshot_blocked_apply", 1) // applying waits for the snapshot on this build: nothing to observe
+	}
+	done := waitFor(30*time.Second, func() bool { return h.c.stats(f)["last_snapshot_index"] != before })
+	h.log("-- snapshot of %s held in Persist while %d more entries were applied (applied during the hold: %v, snapshot index %s -> %s)", f.id, k, applied, before, h.c.stats(f)["last_snapshot_index"])
+	if done && applied {
+		h.ctx.Count("stalled_snapshots", 1)
+		h.ctx.Class(h.lane + "|stalled-snapshot|restart")
+	}
+	return true
+}
+
 func eqArgv(a, b []string) bool {
 	if len(a) != len(b) {
 		return false
@@ -897,6 +1015,12 @@ func c07History(ctx *Ctx, i int) {
 				f = n
 				break
 			}
+		}
+		// Delay injection: hold this follower's next raft snapshot between Snapshot() (which fixes the
+		// snapshot's log index) and Persist() while it applies further non-idempotent writes. The
+		// snapshot it restarts from must still be the state at that index.
+		if !h.stalledSnapshot(f, snapT) {
+			return
 		}
 		h.log("-- shut down follower %s", f.id)
 		if cl, ok := h.fconn[f.id]; ok {
